@@ -16,6 +16,19 @@ CHECKS = {
             "Trusted: the Python reference model (tools/envmodel.py) and the lifecycle's sorted-file application order inside one scope. Held = on the enumerated bound and the sampled random envs only."),
 }
 
+CHECKS["C03"] = ("exploration",
+    "runtime monitoring: real LayerEnv write/read on generated (old env, new env) pairs and hand-made env directories; directory snapshots and read-back probes judged by an independent spec-layout model",
+    "Ordered pairs of generated environments (all scopes incl. per-process, 5 behaviours, byte-string names/values) are written one after the other into a layer dir with bystander files; after every write the full snapshot must equal the spec layout of the new env alone plus unchanged bystanders, and 28 apply() probes after read_from_layer_dir must equal the reference model; hand-made spec-shaped dirs (suffix-less, unknown suffixes, process sub-dirs, symlinks) exercise the reader alone.",
+    "Trusted: tools/envmodel.py (layout + rules). Dotted names / duplicate NAME + NAME.override on the hand-made read side are unspecified and skipped. quick: 3k pairs over a 60-env covering pool + 1k read dirs; thorough: all 40k ordered pairs over a 200-env pool + 10k read dirs.")
+CHECKS["C09"] = ("exploration",
+    "runtime monitoring: the real FromStr/Deserialize implementations and the real literal macros (observed through cargo check diagnostics) driven over an enumerated string space, judged by hand-written recognisers of the spec grammar (three-valued)",
+    "All strings up to length 3/4 over a 12-character class alphabet, all ASCII single characters in three contexts (thorough: all ASCII pairs), reserved words with one-character edits and random strings are fed to str::parse and TOML deserialisation of LayerName, ProcessType, BuildpackId, ExecDProgramOutputKey; all strings up to length 5/6 over a 9-character alphabet plus structured boundary cases to BuildpackVersion/BuildpackApi; several hundred (thorough: several thousand) literals go through the compile-time macros in a generated crate. Accept/reject must equal the recogniser, all routes must agree, accepted values must render identically, display and parse must be inverse on boundary u64 triples.",
+    "Trusted: the recognisers in tools/c09.py. Inputs the spec does not decide (newline,'/',NUL,'.','..' as layer names; non-ASCII letters; leading zeros in API versions; >u64::MAX) are only checked for route agreement and identity rendering.")
+CHECKS["C10"] = ("exploration",
+    "runtime monitoring: real LayerEnv::read_from_layer_dir / write_to_layer_dir on every generated layer directory shape, apply() probes judged by an independent implicit-path table, directory snapshots compared across read->write cycles",
+    "All 6^4 assignments of {absent, dir, file, symlink->dir, symlink->file, dangling} to bin/lib/include/pkgconfig x 5 kinds of explicit entries on the same variables x 5 query scopes x 3 starting envs; each layer is read 4 times with 3 read->write cycles in between and the whole layer snapshot must stay byte-identical; thorough adds 20k random layers with symlink chains, loops, FIFOs, absolute links and odd layer-dir names.",
+    "Trusted: tools/envmodel.py implicit_paths (os.path.isdir). Implicit entries are expected in front of the result of the explicit deltas of the same scope.")
+
 PENDING = {}
 
 
